@@ -15,6 +15,7 @@ import (
 
 	"github.com/BondMachineHQ/BondMachine/pkg/basm"
 	"github.com/BondMachineHQ/BondMachine/pkg/bmconfig"
+	"github.com/BondMachineHQ/BondMachine/pkg/bmreqs"
 	"github.com/BondMachineHQ/BondMachine/pkg/simbox"
 )
 
@@ -25,6 +26,8 @@ type c17Req struct {
 	Conc  int      `json:"conc"` // 0/1 sequential, >1 that many goroutines sharing the n calls
 	Input []string `json:"input"`
 	Basm  string   `json:"basm,omitempty"`
+	// single: the data type the outputs are shown in (default unsigned); an unknown type makes the call fail while it reports
+	DataType string `json:"datatype,omitempty"`
 	// fitness: the object the expectation names (default o0); an object the machine does not have makes the call fail early
 	ExpObj string `json:"expobj,omitempty"`
 	// opcode -> delay in clocks -> probability; one SimDelays object is built from it and shared by all the calls
@@ -126,7 +129,7 @@ func init() {
 			}
 			res := c17Res{Growth: map[string]int{}}
 			bm, err := buildBM(&q.BM)
-			if err != nil && q.Call != "assemble" {
+			if err != nil && q.Call != "assemble" && q.Call != "reqroot" {
 				res.Err = "build: " + err.Error()
 				emit(res)
 				continue
@@ -148,7 +151,11 @@ func init() {
 				case "single":
 					var out []string
 					var e error
-					out, e = bm.SinglePipelineSimulate("unsigned", q.Input, sd)
+					dt := q.DataType
+					if dt == "" {
+						dt = "unsigned"
+					}
+					out, e = bm.SinglePipelineSimulate(dt, q.Input, sd)
 					if e != nil {
 						return "err:" + e.Error()
 					}
@@ -171,6 +178,11 @@ func init() {
 					if e != nil {
 						return "err:" + e.Error()
 					}
+					return "ok"
+				case "reqroot":
+					// a requirement engine that is created and closed again
+					rg := bmreqs.NewReqRoot()
+					rg.Close()
 					return "ok"
 				case "assemble":
 					r := ""
